@@ -11,6 +11,7 @@ import time
 
 import common as C
 import boardcorr as B
+import ucigrammar as UG
 
 HEADER = ("From Coq Require Import NArith ZArith List String.\nImport ListNotations.\n"
           "From RCE Require Import lib.Bits model.Board model.Movegen model.Fen model.Search model.ChessSearch.\n"
@@ -177,30 +178,18 @@ def dec_z(p):
 
 
 def parse_info(line):
+    """one engine output line -> {"bestmove": m} | the fields of a valid UCI info line | {"other": line} (anything else, including an
+    info line that is not valid UCI: lib/ucigrammar.py)"""
     f = line.split()
-    d = {}
     if not f:
         return None
     if f[0] == "bestmove":
         return {"bestmove": f[1] if len(f) > 1 else None}
     if f[0] != "info":
         return {"other": line}
-    i = 1
-    while i < len(f):
-        t = f[i]
-        if t in ("depth", "seldepth", "nodes", "time", "nps"):
-            d[t] = int(f[i + 1])
-            i += 2
-        elif t == "score":
-            d["score_kind"] = f[i + 1]
-            d["score"] = int(f[i + 2])
-            i += 3
-        elif t == "pv":
-            d["pv"] = f[i + 1:]
-            break
-        else:
-            d.setdefault("junk", []).append(t)
-            i += 1
+    d = UG.parse_info(line)
+    if d is None:
+        return {"other": line, "invalid_info": True}
     return d
 
 
@@ -252,6 +241,18 @@ def compare_case(case, eng, mod):
         ebm = [x for x in infos if "bestmove" in x]
         minfo = [o for o in mout if o[0] == 1]
         mbm = [o for o in mout if o[0] == 2]
+        # judged on the engine alone (level "property"): exactly one bestmove line, naming a legal move of the searched position,
+        # iteration reports numbered 1, 2, 3, ... without gaps or repeats, every info line valid UCI
+        if len(ebm) != 1:
+            div.append({"field": "bestmove-count", "spec": spec, "engine": ebm, "model": [notation(o[6][0]) for o in mbm]})
+        elif er.get("legal") and ebm[0]["bestmove"] not in er["legal"]:
+            div.append({"field": "bestmove-illegal", "spec": spec, "engine": ebm[0]["bestmove"], "model": er["legal"]})
+        if any(x.get("invalid_info") for x in infos):
+            div.append({"field": "info-invalid", "spec": spec, "engine": [x["other"] for x in infos if x.get("invalid_info")][:3], "model": None})
+        edepths = [x["depth"] for x in einfo if UG.iteration_report(x)]
+        if edepths != list(range(1, len(edepths) + 1)):
+            div.append({"field": "info-order", "spec": spec, "engine": edepths, "model": [o[1] for o in minfo]})
+        # compared with the model (level "internal" unless the property fixes the value)
         if len(ebm) != 1 or len(mbm) != 1 or ebm[0]["bestmove"] != notation(mbm[0][6][0]):
             div.append({"field": "bestmove-line", "spec": spec, "engine": ebm, "model": [notation(o[6][0]) for o in mbm]})
         if len(einfo) != len(minfo):
